@@ -1197,7 +1197,10 @@ impl<'a> Parser<'a> {
         }
         if !self.eat_p(":") {
             if at_end(self) {
-                return self.unsupported("property signatures without a type are outside the supported subset");
+                // `name;` / `name,` - a property signature without a type annotation is valid
+                // TypeScript (implicitly `any`). Accept it, so that a later genuine syntax error in
+                // the same file is still reported as such.
+                return Ok(Member::Prop { key, optional, readonly, ty: Type::Keyword("any".into()) });
             }
             return self.unexpected("':'");
         }
